@@ -71,3 +71,22 @@ Theorem C14_merge_selects_taken_path : forall c a b o, same_env_shape a b -> For
   mux_envs tops c a b o = Ok (if c then a else b, o).
 Proof. exact tsem_mux_envs. Qed.
 Print Assumptions C14_merge_selects_taken_path.
+
+(* blocks push a scope, run their statements in order threading variables and panic, pop the
+   scope; let / let mut bind in the current scope (Compile/TSemControl.v) *)
+From GV Require Import Compile.TSemControl.
+Theorem C14_bitsem_tsem_block : ltac:(let T := type of tsem_block in exact T).
+Proof. exact tsem_block. Qed.
+Print Assumptions C14_bitsem_tsem_block.
+Theorem C14_bitsem_tsem_let : ltac:(let T := type of tsem_let in exact T).
+Proof. exact tsem_let. Qed.
+Print Assumptions C14_bitsem_tsem_let.
+Theorem C14_bitsem_tsem_let_mut : ltac:(let T := type of tsem_let_mut in exact T).
+Proof. exact tsem_let_mut. Qed.
+Print Assumptions C14_bitsem_tsem_let_mut.
+Theorem C14_bitsem_tsem_land_short_circuit : ltac:(let T := type of tsem_land_short_circuit in exact T).
+Proof. exact tsem_land_short_circuit. Qed.
+Print Assumptions C14_bitsem_tsem_land_short_circuit.
+Theorem C14_bitsem_tsem_lor_short_circuit : ltac:(let T := type of tsem_lor_short_circuit in exact T).
+Proof. exact tsem_lor_short_circuit. Qed.
+Print Assumptions C14_bitsem_tsem_lor_short_circuit.
